@@ -1,12 +1,12 @@
 package main
 
 import (
-	"strings"
 	"bytes"
 	"fmt"
 	"io"
 	"math"
 	"math/rand"
+	"strings"
 
 	"github.com/reusee/sb"
 )
